@@ -16,19 +16,20 @@ from typing import Any, Dict, List, Optional, Tuple
 
 from harness import core
 
-GEN_SPECS = ["XsdRegex.tla", "XsdConstraints.tla", "XsdGen.tla"]
+GEN_SPECS = ["XsdRegex.tla", "XsdConstraints.tla", "XsdTrees.tla", "XsdGen.tla"]
+FEATURES = ["enc_meta", "enc_set_meta", "uni_esc", "esc_dollar", "multi", "multi_dotrep", "multi_negset", "multi_esc"]
 
 # per (property, tier): how many cores of each family are taken (after stratified seeded shuffling), the wall-clock
 # budget of the R phase, and the value bounds.  The R phase stops taking new scenarios at its deadline; what was
 # actually run is what the evidence reports.
 PLANS: Dict[Tuple[str, str], Dict[str, Any]] = {
-    ("C13", "quick"): {"cfg": "XsdGen.cfg", "take": {"pat": 420, "multi": 160, "len": 260}, "r_budget": 42, "min_done": 60,
+    ("C13", "quick"): {"cfg": "XsdGen.cfg", "take": {"pat": 420, "multi": 160, "len": 260}, "r_budget": 42, "min_done": 10,
                        "opts": {"max_len": 4, "max_str": 3, "max_strings": 130, "mutations": False, "gen_timeout": 15}},
-    ("C13", "thorough"): {"cfg": "XsdGen_thorough.cfg", "take": {"pat": 100000, "multi": 2600, "len": 2400}, "r_budget": 470, "min_done": 600,
+    ("C13", "thorough"): {"cfg": "XsdGen_thorough.cfg", "take": {"pat": 100000, "multi": 2600, "len": 2400}, "r_budget": 470, "min_done": 100,
                           "opts": {"max_len": 5, "max_str": 3, "max_strings": 260, "mutations": False, "gen_timeout": 30}},
-    ("C14", "quick"): {"cfg": "XsdGen.cfg", "take": {"pat": 170, "multi": 70, "len": 520}, "r_budget": 42, "min_done": 60,
+    ("C14", "quick"): {"cfg": "XsdGen.cfg", "take": {"pat": 170, "multi": 70, "len": 520}, "r_budget": 42, "min_done": 10,
                        "opts": {"max_len": 4, "max_str": 3, "max_strings": 110, "mutations": True, "gen_timeout": 15}},
-    ("C14", "thorough"): {"cfg": "XsdGen_thorough.cfg", "take": {"pat": 1500, "multi": 900, "len": 6500}, "r_budget": 470, "min_done": 600,
+    ("C14", "thorough"): {"cfg": "XsdGen_thorough.cfg", "take": {"pat": 1500, "multi": 900, "len": 6500}, "r_budget": 470, "min_done": 100,
                           "opts": {"max_len": 5, "max_str": 3, "max_strings": 200, "mutations": True, "gen_timeout": 30}},
 }
 
@@ -52,7 +53,7 @@ def generate_cores(ck: core.Check, cfg: str) -> Dict[str, Any]:
         except Exception:
             pass
     out = ck.work / "cores.json"
-    res = ck.tlc("XsdGen", cfg, what="G: scenario cores", env={"VERIF_OUT": str(out)}, count=False, timeout=900)
+    res = ck.tlc("XsdGen", cfg, what="G: scenario cores", env={"VERIF_OUT": str(out)}, count=False, timeout=2400)
     d = core.read_json(out)
     d["_printed"] = res.printed
     d["_cmd"] = res.cmd.replace(str(core.VERIF) + "/", "")
@@ -198,12 +199,15 @@ def to_violation(ck: core.Check, v: Dict[str, Any], o: Dict[str, Any]) -> None:
     j = int(alias_field(st, "j") or "0")
     sc = o["sc"]
     feats = "+".join(o.get("feat", [])) or "none"
-    key: Dict[str, Any] = {"clause": inv, "fam": sc["fam"], "kind": sc["kind"], "features": feats}
+    key: Dict[str, Any] = {"clause": inv, "fam": sc["fam"], "kind": sc["kind"]}
+    for f in FEATURES:  # structural fingerprint computed by the spec (XsdConstraints!ScenarioFeatures)
+        key[f] = f in o.get("feat", [])
     case: Dict[str, Any] = {"scenario": {**sc, "alpha": o.get("alpha", []), "feat": o.get("feat", []), "id": o.get("id", 0)}, "described": describe(sc, o)}
     observation: Dict[str, Any] = {"gen": o["gen"], "loads10": o["loads10"], "loads11": o["loads11"], "xsd_patterns": [core.from_cps(p) for p in o["xpats"]], "detail": o.get("detail", ""), "load_err": o.get("load_err", "")}
     nv = len(o["vals"])
     detail = "%s %s patterns=%s atoms=%s -> xsd=%s" % (sc["kind"], feats, o.get("ptexts"), [(a["src"], a["op"], a["c"], a["side"]) for a in sc["atoms"]], observation["xsd_patterns"])
     if j == 0:
+        key["sat"] = alias_field(st, "sat") == "TRUE"
         if inv == "Inv_PatternGrammar":
             key["badesc"] = re.sub(r"\s+", "", alias_field(st, "badesc"))
         if inv == "Inv_Generated":
@@ -238,27 +242,40 @@ def run_check(pid: str, level: str, model_check: Any = None) -> int:
     module = "XsdTrace13" if pid == "C13" else "XsdTrace14"
     plan = dict(PLANS[(pid, ck.tier)])
     scale = float(os.environ.get("VERIF_XSD_SCALE", "1"))  # development aid: shrink the sample (and the minimum) uniformly
+    if os.environ.get("VERIF_XSD_BUDGET"):  # development aid: another wall-clock budget for the R phase
+        plan["r_budget"] = int(os.environ["VERIF_XSD_BUDGET"])
     if scale != 1:
         plan["take"] = {k: max(1, int(v * scale)) for k, v in plan["take"].items()}
         plan["min_done"] = max(1, int(plan["min_done"] * scale))
     rnd = random.Random(ck.seed)
     replay = os.environ.get("VERIF_REPLAY")
-    if model_check is not None and not replay:
-        model_check(ck)
+    # M runs beside G and R (TLC on its own cores); its verdict is collected before V
+    m_error: List[BaseException] = []
+    m_thread: Optional[threading.Thread] = None
+    if model_check is not None and not replay and not os.environ.get("VERIF_XSD_SKIP_M"):  # (the variable is a development aid)
+
+        def run_m() -> None:
+            try:
+                model_check(ck)
+            except BaseException as ex:  # re-raised in the main thread
+                m_error.append(ex)
+
+        m_thread = threading.Thread(target=run_m)
+        m_thread.start()
     if replay:
         rp = json.loads(pathlib.Path(replay).read_text())
         sc = dict(rp["case"]["scenario"])
         sc["id"] = 1
         scenarios = [sc]
-        deadline = time.time() + 600
+        budget = 600
         ck.notes.append("replay of %s" % replay)
     else:
         cores = generate_cores(ck, plan["cfg"])
         scenarios = select(cores, plan["take"], rnd)
-        deadline = time.time() + plan["r_budget"]
+        budget = plan["r_budget"]
     # R
     opts = dict(plan["opts"])
-    opts["deadline"] = deadline
+    opts["budget"] = budget  # seconds, counted by the runner from the moment its workers are up
     job = ck.work / "job.json"
     obs_p = ck.work / "obs.json"
     core.write_json(job, {"scenarios": scenarios, "opts": opts, "procs": 8})
@@ -280,6 +297,10 @@ def run_check(pid: str, level: str, model_check: Any = None) -> int:
     for o in obs:
         gens[o["gen"]] = gens.get(o["gen"], 0) + 1
     judged = [o for o in obs if o["gen"] != "model_rejected"]
+    if m_thread is not None:
+        m_thread.join()
+        if m_error:
+            raise m_error[0]
     # V
     found, printed = run_v(ck, module, judged, max_states=30000 if ck.quick else 60000, parallel=4)
     machinery = [(v, o) for v, o in found if v["invariant"].startswith("S_")]
